@@ -2,6 +2,7 @@
 C01 — Compress then decompress returns the original packet, bit for bit.
 -/
 import Schc.Proofs.Roundtrip
+import Schc.Proofs.Direction
 import Schc.Proofs.StackRoundtrip
 import Schc.Proofs.StackRoundtrip4
 import Schc.Proofs.StackRestoreSctp
@@ -32,46 +33,54 @@ theorem C01_nocompression (p : Packet) (r : Rule) (hn : r.nature = .noCompressio
   rw [hraw]
   simp [List.append_assoc]
 
-/-- Through a context manager, either strategy: if every rule of the set that applies to the packet is such a
-    rule (or a no-compression rule) and the rule IDs are prefix-free, whatever rule the strategy picks is found
-    again from the rule ID and the packet comes back. Uses C10 (the output is the output of an applicable rule
-    of the set) and C11 (it is dispatched to that rule). -/
+/-- Through a context manager, either strategy, ANY mix of direction indicators in the rules: if every rule of the
+    set that applies to the packet is a compression rule whose descriptors for the packet's direction are lossless
+    pairings that fit (or a no-compression rule) and the rule IDs are prefix-free, whatever rule the strategy picks
+    is found again from the rule ID and, with the direction passed to `decompress`, the packet comes back. Uses C10
+    (the output is the output of an applicable rule of the set), C11 (it is dispatched to that rule) and C18 (both
+    sides use the descriptors of that direction). -/
 theorem C01_manager (rules : List Rule) (p : Packet) (d : Dir) (st : Strategy)
     (hT : ∀ r ∈ rules, RuleTypeOK r) (hpf : PrefixFreeIds rules)
     (hgood : ∀ r ∈ rules, Spec.applicable { p with dir := d } r = true →
-      (r.nature = .compression ∧ (∀ rf ∈ r.fields, Spec.dirApplies d rf.dir = true) ∧ AllFits p.fields r.fields)
+      (r.nature = .compression ∧ AllFits p.fields (restrict r d).fields)
       ∨ (r.nature = .noCompression ∧ r.fields = []))
     (hraw : p.raw.bits = p.fields.flatMap (·.value.bits) ++ p.payload.bits)
     (c : ABuf) (hc : managerCompressPacket rules p d st = .ok c) :
-    managerDecompress rules c = .ok ⟨p.raw.bits, .right⟩ := by
+    managerDecompress rules c (some d) = .ok ⟨p.raw.bits, .right⟩ := by
   obtain ⟨r, hr, ha, hcr⟩ := selected_rule rules p d st hT c hc
+  have hcr' : compress { p with dir := d } (restrict r d) = .ok c := hcr
+  have ha' : Spec.applicable { p with dir := d } (restrict r d) = true := by
+    have := applicable_restrict { p with dir := d } r
+    simp only at this
+    rw [this]; exact ha
   have hdisp : matchSchc rules c = .ok r := by
     apply matchSchc_hit rules c r hr _ hpf
-    -- every output of `compress` starts with the rule ID
-    rcases hgood r hr ha with ⟨hn, hdir, hfit⟩ | ⟨hn, _⟩
-    · obtain ⟨c', h1, _⟩ := roundtrip_compression { p with dir := d } r hn hdir ha hfit hraw
-      rw [hcr] at h1; cases h1
-      obtain ⟨bits, _, h3⟩ : ∃ bits, True ∧ compress { p with dir := d } r = .ok ⟨r.id.bits ++ bits, .right⟩ := by
-        unfold Spec.applicable at ha; rw [hn] at ha
-        have hfilter : r.fields.filter (fun f => Spec.dirApplies d f.dir) = r.fields := by rw [List.filter_eq_self]; exact hdir
-        simp only [hfilter, Bool.and_eq_true, beq_iff_eq] at ha
-        obtain ⟨_, hok, _, _⟩ := all_of_match p.fields r.fields ha.1 ha.2 hfit
-        obtain ⟨rs, _, h2⟩ := compressFields_spec p.fields r.fields ((ABuf.empty .right).add r.id) hok
+    -- every output of `compress` starts with the rule ID (which `restrict` keeps)
+    rcases hgood r hr ha with ⟨hn, hfit⟩ | ⟨hn, _⟩
+    · obtain ⟨bits, _, h3⟩ : ∃ bits, True ∧ compress { p with dir := d } (restrict r d) = .ok ⟨r.id.bits ++ bits, .right⟩ := by
+        have ha2 := ha'
+        unfold Spec.applicable at ha2; rw [restrict_nature, hn] at ha2
+        have hfilter : (restrict r d).fields.filter (fun f => Spec.dirApplies d f.dir) = (restrict r d).fields := by
+          rw [List.filter_eq_self]; exact restrict_dirs r d
+        simp only [hfilter, Bool.and_eq_true, beq_iff_eq] at ha2
+        obtain ⟨_, hok, _, _⟩ := all_of_match p.fields (restrict r d).fields ha2.1 ha2.2 hfit
+        obtain ⟨rs, _, h2⟩ := compressFields_spec p.fields (restrict r d).fields ((ABuf.empty .right).add r.id) hok
         refine ⟨rs ++ p.payload.bits, trivial, ?_⟩
         unfold compress
-        simp only [hn, h2, bind, Except.bind, pure, Except.pure]
+        simp only [restrict_nature, hn, restrict_id, h2, bind, Except.bind, pure, Except.pure]
         simp [ABuf.add, ABuf.empty]
-      rw [hcr] at h3; cases h3; exact List.prefix_append _ _
-    · have := C02_nocompression' { p with dir := d } r hn
-      rw [hcr] at this; cases this
-      simp [List.append_assoc]
+      rw [hcr'] at h3; cases h3; exact List.prefix_append _ _
+    · have := C02_nocompression' { p with dir := d } (restrict r d) hn
+      rw [hcr'] at this; cases this
+      simp [restrict_id, List.append_assoc]
   unfold managerDecompress
-  simp only [hdisp, bind, Except.bind]
-  rcases hgood r hr ha with ⟨hn, hdir, hfit⟩ | ⟨hn, hf⟩
-  · obtain ⟨c', h1, h2⟩ := roundtrip_compression { p with dir := d } r hn hdir ha hfit hraw
-    rw [hcr] at h1; cases h1; exact h2
-  · obtain ⟨c', h1, h2⟩ := C01_nocompression { p with dir := d } r hn hf hraw
-    rw [hcr] at h1; cases h1; exact h2
+  simp only [hdisp, bind, Except.bind, decompressD]
+  rcases hgood r hr ha with ⟨hn, hfit⟩ | ⟨hn, hf⟩
+  · obtain ⟨c', h1, h2⟩ := roundtrip_compression { p with dir := d } (restrict r d) hn (restrict_dirs r d) ha' hfit hraw
+    rw [hcr'] at h1; cases h1; exact h2
+  · have hf' : (restrict r d).fields = [] := by rw [restrict_fields, hf]; rfl
+    obtain ⟨c', h1, h2⟩ := C01_nocompression { p with dir := d } (restrict r d) hn hf' hraw
+    rw [hcr'] at h1; cases h1; exact h2
 
 /-- non-vacuity: all four lossless pairings, a variable-length LSB field, 3-bit rule ID, unaligned payload -/
 example :
